@@ -18,3 +18,4 @@ open GoSQLXModel
 #print axioms Lex.lexLoop_prefix_err
 #print axioms Lex.unterminated_literal_located
 #print axioms Props.C05.unterminated_literal_located_at_its_quote
+#print axioms Props.C05.token_limit_error_located_at_the_excess
